@@ -919,5 +919,10 @@ pub fn run(prop: &str, thorough: bool) -> i32 {
             r.run_scenario(&p.sc, lim, &p.required);
         }
     }
+    if prop == "C06" {
+        // the lifecycle also has to work on the stores that deployed contracts already hold
+        r.assumptions.push("deployed bytes: /verif/baselines/staking-stores.json holds the stores the pinned tree writes for eight scripted histories; the tree under test must read and operate them like stores it wrote itself".into());
+        crate::store_pin::run_pin(&mut r, "C06");
+    }
     r.finish()
 }
